@@ -85,5 +85,11 @@ class ForeverWriteHandler(AbstractWriteHandler):
             if len(lwh.ended_loops) > 0:
                 assert self.m is not None
                 if self.m.loop_id in lwh.ended_loops:
+                    if block.previous_handler_in_block is not None:
+                        # The statement before continues at the end label of the loop (eg. an if without else whose
+                        # blocks all left the loop): the flow leaves the loop here, the end of the body would repeat it.
+                        self.decompiler.write_stmnt("break_loop;")
+                        if self._vertex_after_forever is None:
+                            self.set_vertex_after(next_handler.start_vertex)
                     return False
         return True
